@@ -9,7 +9,8 @@ TB = ("Trusted: Lean 4.33 kernel (leanchecker re-check in the thorough tier); ax
       "Quot.sound only, audited per theorem with #print axioms on every run, no sorry/native_decide/bv_decide (grepped); "
       "the hand-written model is tied to /repo by the differential correspondence harness (/verif/harness, stdlib "
       "Python, in-process on the working tree of $VERIF_REPO) whose generators, canonicalisation and oracles are "
-      "trusted; CPython 3.12. ")
+      "trusted; where the level text names a TRANSLATOR tie also harness/py2lean.py and the Python primitives of "
+      "lean/PyTreesGen/Prelude.lean; CPython 3.12. ")
 
 BT = ("Modelled, not verified: generator laziness (a visitor/handler mutating the tree between yields), raising user "
       "callbacks, float clock (integer fake clock installed by the harness), threads of setup(timeout). ")
